@@ -110,7 +110,7 @@ def rule_r3(p, res):
     ]
     for fn, t, s in scale_sites:
         r.instance("%s: scale" % fn.short)
-        divs = [n for n in walk_own(fn.node) if isinstance(n, ast.BinOp) and isinstance(n.op, ast.Div) and ".norm()" in norm(n)]
+        divs = [n for n in walk_own(fn.node) if isinstance(n, ast.BinOp) and isinstance(n.op, ast.Div) and (t in norm(n.left) and s in norm(n.right) or s in norm(n.left) and t in norm(n.right))]
         need(len(divs) == 1, "C07.R3: scale fit of %s not recognised" % fn.short)
         got = (norm(divs[0].left), norm(divs[0].right))
         r.check(got == ("%s.norm()" % t, "%s.norm()" % s), fn, divs[0], "%s: the scale must be target size over source size (found %s / %s)" % (fn.short, got[0], got[1]), {"site": fn.short, "scale": "%s / %s" % got})
@@ -120,7 +120,8 @@ def rule_r3(p, res):
     ]
     for fn, t, s in tr_sites:
         r.instance("%s: translation" % fn.short)
-        subs = [n for n in walk_own(fn.node) if isinstance(n, ast.BinOp) and isinstance(n.op, ast.Sub) and ".centre()" in norm(n)]
+        subs = [n for n in walk_own(fn.node) if isinstance(n, ast.BinOp) and isinstance(n.op, ast.Sub) and norm(n.left).startswith(t + ".") and norm(n.right).startswith(s + ".")
+                or isinstance(n, ast.BinOp) and isinstance(n.op, ast.Sub) and norm(n.left).startswith(s + ".") and norm(n.right).startswith(t + ".")]
         need(len(subs) == 1, "C07.R3: translation fit of %s not recognised" % fn.short)
         got = (norm(subs[0].left), norm(subs[0].right))
         r.check(got == ("%s.centre()" % t, "%s.centre()" % s), fn, subs[0], "%s: the translation must be target centre minus source centre (found %s - %s)" % (fn.short, got[0], got[1]), {"site": fn.short})
@@ -137,6 +138,12 @@ def rule_r3(p, res):
     d = Defs(pa.node)
     seq = [norm(k.args[0]) for k in calls_in(pa.node) if norm(k.func) == "p.compose_before_inplace"]
     r.check(seq == ["src_t", "src_s", "r", "tgt_t.pseudoinverse()"], pa, pa.node, "procrustes: centre the source, scale, rotate, move to the target centre -- in that order (found %s)" % seq, {"composition": seq})
+    gpa = cfgmod.build(pa.node)
+    for k in [k for k in calls_in(pa.node) if norm(k.func) == "p.compose_before_inplace"]:
+        gs = [(norm(t), pol) for t, pol in gpa.guards(stmt_of(k))]
+        want_g = [("rotation", True)] if norm(k.args[0]) == "r" else []
+        r.check(gs == want_g, pa, k, "procrustes: the step `%s` is executed under %s; only the rotation step depends on the `rotation` option (centring, scaling and moving to the target centre "
+                "always happen)" % (norm(k)[:50], gs), {"step": norm(k.args[0]), "guards": gs})
     r.check(norm(d.single("src_t")) == "Translation(-source.centre(), skip_checks=True)" and norm(d.single("tgt_t")) == "Translation(-target.centre(), skip_checks=True)", pa, pa.node,
             "procrustes must centre source and target at their own centres")
     g = cfgmod.build(pa.node)
@@ -234,5 +241,9 @@ WITNESSES = [
             rule="C07.R3", construct="AlignmentTranslation"),
     Witness("C07.W9", "menpo/transform/groupalign/procrustes.py", "GeneralizedProcrustesAnalysis.__init__", "AlignmentSimilarity(source, self.target, allow_mirror=allow_mirror)", "AlignmentSimilarity(source, self.target)",
             rule="C07.R2", construct="GeneralizedProcrustesAnalysis"),
+    Witness("C07.W10", "menpo/transform/homogeneous/translation.py", "AlignmentTranslation._sync_state_from_target", "self.target.centre() - self.source.centre()", "self.target.centre_of_bounds() - self.source.centre_of_bounds()",
+            rule="C07.R3", construct="AlignmentTranslation", note="seeded change R2-C07-B"),
+    Witness("C07.W11", "menpo/transform/homogeneous/similarity.py", "procrustes_alignment", "        p.compose_before_inplace(r)\n    p.compose_before_inplace(tgt_t.pseudoinverse())", "        p.compose_before_inplace(r)\n        p.compose_before_inplace(tgt_t.pseudoinverse())",
+            rule="C07.R3", construct="procrustes_alignment", note="seeded change R2-C07-C"),
     Witness("C07.T1", "menpo/transform/base/alignment.py", "Alignment.alignment_error", "np.linalg.norm(self.target.points - self.aligned_source().points)", "np.linalg.norm(self.aligned_source().points - self.target.points)", kind="T"),
 ]
